@@ -6,9 +6,18 @@ any number of writer polls, any number of `acknowledge(n)` / `disallow_write()` 
 EVERY schedule `ls` of the atomic operations — induction over the step relation
 (`Lemmas/Waker.lean`), not enumeration.  The model is sequentially consistent; see
 `Model/Waker.lean` for what one step is and what is trusted (`AtomicWaker`'s register / wake).
+
+The first part is about ONE writer thread per stream (what `AsyncWrite` allows); the second part
+("Several writers on one stream", theorems `…_n`, model `Model/WakerN.lean`) about any number of writer
+threads polling one stream through the `&self` entry points `poll_write_push` /
+`poll_obtain_write_permission`.
 -/
 import Penguin.Model.Waker
+import Penguin.Model.WakerN
 import Penguin.Lemmas.Waker
+import Penguin.Lemmas.WakerNInv
+import Penguin.Lemmas.WakerNId
+import Penguin.Lemmas.WakerNSim
 import Penguin.Lemmas.MuxWake
 
 namespace Penguin.C12
@@ -241,5 +250,385 @@ private def wops : List Mux.Op :=
 example : ((Mux.runOps { opts := {} } wops).objs[0]?.map (fun o => (o.parked, o.woken, o.credit))) = some (true, false, 0) := by decide
 example : ((Mux.runOps { opts := {} } (wops ++ [.deliver (.msg .close), .deliver .eof])).objs[0]?.map
     (fun o => (o.parked, o.woken, o.finishSent))) = some (true, true, true) := by decide
+
+end Penguin.C12
+
+/-! ## Several writers on one stream (`Model/WakerN`)
+
+`poll_write_push` / `poll_obtain_write_permission` take `&self` and `MuxStream` is `Sync`: safe code can
+poll the write side of ONE stream from several tasks at once.  The theorems below (suffix `_n`) are
+about EVERY reachable state `run sc ls` of EVERY scenario `sc` of `Model/WakerN` — any initial credit,
+any number of writer threads each with any number of polls, any number of `acknowledge(n)` /
+`disallow_write()` threads — under EVERY schedule `ls` of the atomic operations; induction over the
+step relation (`Lemmas/WakerN*.lean`).
+
+What holds exactly as for one writer: the credit arithmetic (the `compare_exchange` makes the
+decrement atomic with the check, so no unit is spent twice) and "closed writers fail".  What the ONE
+`AtomicWaker` slot still gives for wake-ups, and what it does not, is stated in
+`no_lost_wakeup_n` … `two_writers_one_slot_full_fails`. -/
+
+namespace Penguin.C12
+open Penguin.Waker (PollResult ActorKind APc Actor WPc)
+open Penguin.WakerN Penguin.Lemmas.WakerN
+
+/-- With ONE writer thread the model of this section IS the single-writer model of the theorems above:
+    under every schedule the run of `Model/WakerN` with the writer list `[polls]` has one writer and,
+    with the thread component of the waker names and the ghosts `lastReg` / `regMark` forgotten
+    (`proj1`), is the run of `Model/Waker` under the same schedule. -/
+theorem one_writer_is_single_writer_model (credit polls : Nat) (actors : List ActorKind) (ls : List Waker.Label) :
+    ∃ w, (run ⟨credit, [polls], actors⟩ (ls.map lift1)).writers = [w] ∧
+      proj1 (run ⟨credit, [polls], actors⟩ (ls.map lift1)) w = Waker.run ⟨credit, polls, actors⟩ ls :=
+  run_one_writer credit polls actors ls
+
+/-- Credit conservation with any number of writers racing each other and the acknowledgers: at every
+    moment the credit available plus the units taken by all writers equals the initial credit plus
+    the units granted; a unit taken is a frame sent or is held by a writer whose `send` is its next
+    operation; so once every writer has returned, credit + frames sent = initial + grants. -/
+theorem credit_conservation_n (sc : Scenario) (ls : List Label) :
+    let s := run sc ls
+    s.credit + totalTakes s = sc.credit + s.grants ∧
+    s.credit + totalSent s + inFlight s = sc.credit + s.grants ∧
+    (allWritersFinished s = true → s.credit + totalSent s = sc.credit + s.grants) := by
+  intro s
+  have inv : Inv sc s := run_inv sc ls
+  have h1 := inv.conservation
+  have h2 := totals inv
+  refine ⟨h1, by omega, fun hf => ?_⟩
+  have := finished_inFlight hf
+  omega
+
+/-- No writer ever sends a frame without a unit of credit: each writer's frames never exceed ITS OWN
+    successful `compare_exchange`s, each of which was from a positive value, and its `Ready(Some(()))`
+    polls are exactly its frames; so the frames sent by all writers together never exceed the initial
+    credit plus the grants performed so far, which never exceed what the scenario's acknowledgers
+    grant altogether. -/
+theorem no_frame_without_credit_n (sc : Scenario) (ls : List Label) :
+    let s := run sc ls
+    (∀ w ∈ s.writers, w.sent ≤ w.takes.length ∧ (∀ v ∈ w.takes, 0 < v) ∧ w.results.count .some = w.sent) ∧
+    totalSent s ≤ sc.credit + s.grants ∧ s.grants ≤ sc.ackTotal := by
+  intro s
+  have inv : Inv sc s := run_inv sc ls
+  refine ⟨fun w hw => ?_, ?_, ?_⟩
+  · have hwi := winv_of_mem inv hw
+    refine ⟨?_, hwi.takes_pos, results_count_some w hwi⟩
+    have := hwi.sent_takes
+    split at this <;> omega
+  · have h1 := inv.conservation
+    have h2 := totals inv
+    omega
+  · have := inv.grants
+    omega
+
+/-- The last unit: whatever the number of writers racing for it, a scenario in which the initial
+    credit and all acknowledgements together amount to ONE unit sees at most one frame (two writers
+    that both loaded `1` and both try `compare_exchange(1, 0)`: one of them fails and starts over). -/
+theorem last_unit_one_frame_n (sc : Scenario) (ls : List Label) (h1 : sc.credit + sc.ackTotal = 1) :
+    totalSent (run sc ls) ≤ 1 ∧ totalSome (run sc ls) ≤ 1 := by
+  have inv : Inv sc (run sc ls) := run_inv sc ls
+  have h := no_frame_without_credit_n sc ls
+  simp only [] at h
+  rw [totalSome_eq_totalSent inv]
+  omega
+
+/-- The same from the middle of a run: in a reachable state with one unit of credit left, no writer
+    holding a unit and no grant still to come, every continuation — with any number of writers
+    anywhere between their load and their `compare_exchange` — sends at most one more frame. -/
+theorem last_unit_one_more_frame_n (sc : Scenario) (ls ls' : List Label) :
+    let s := run sc ls
+    let s' := run sc (ls ++ ls')
+    s.credit = 1 → inFlight s = 0 → grantsToCome s = 0 → totalSent s' ≤ totalSent s + 1 := by
+  intro s s' hc hi hg
+  have inv : Inv sc s := run_inv sc ls
+  have inv' : Inv sc s' := run_inv sc (ls ++ ls')
+  have a1 := inv.conservation
+  have a2 := totals inv
+  have a3 := inv.grants
+  have b1 := inv'.conservation
+  have b2 := totals inv'
+  have b3 := inv'.grants
+  omega
+
+/-- A poll of any writer whose first operation comes after a close has completed its `swap` returns
+    `Ready(None)`: every logged poll that found `finish_sent` set when it started failed. -/
+theorem closed_writers_fail_n (sc : Scenario) (ls : List Label) :
+    let s := run sc ls
+    ∀ w ∈ s.writers, ∀ p ∈ w.log, p.1 = true → p.2 = .none := by
+  intro s w hw
+  exact (winv_of_mem (run_inv sc ls) hw).log_closed
+
+/-- … and that flag is set exactly when some `disallow_write()` has performed its `swap`. -/
+theorem closed_iff_some_close_swapped_n (sc : Scenario) (ls : List Label) :
+    let s := run sc ls
+    s.closed = true ↔ ∃ a ∈ s.actors, a.isCloser = true ∧ a.pc ≠ .write := by
+  intro s
+  have inv : Inv sc s := run_inv sc ls
+  rw [inv.closed_iff]
+  constructor
+  · intro h
+    have : 0 < s.actors.countP Lemmas.Waker.pCloserMid ∨ 0 < s.actors.countP Lemmas.Waker.pCloserDone := by omega
+    rcases this with h | h <;> obtain ⟨a, ha, hp⟩ := List.countP_pos_iff.mp h
+    · simp [Lemmas.Waker.pCloserMid] at hp
+      exact ⟨a, ha, hp.1, by simp [hp.2]⟩
+    · simp [Lemmas.Waker.pCloserDone] at hp
+      exact ⟨a, ha, hp.1, by simp [hp.2]⟩
+  · rintro ⟨a, ha, hc, hpc⟩
+    cases hp : a.pc with
+    | write => exact absurd hp hpc
+    | wake =>
+      have : 0 < s.actors.countP Lemmas.Waker.pCloserMid :=
+        List.countP_pos_iff.mpr ⟨a, ha, by simp [Lemmas.Waker.pCloserMid, hc, hp]⟩
+      omega
+    | done =>
+      have : 0 < s.actors.countP Lemmas.Waker.pCloserDone :=
+        List.countP_pos_iff.mpr ⟨a, ha, by simp [Lemmas.Waker.pCloserDone, hc, hp]⟩
+      omega
+
+/-! ### Wake-ups with ONE waker slot and several waiting tasks
+
+The stream has one `AtomicWaker`.  A `register` replaces whatever the cell holds, also the waker of
+ANOTHER task; `wake()` wakes the waker that registered last.  So the guarantee of `no_lost_wakeup`
+("a parked writer has nothing to do, or ITS waker was woken, or a wake is about to come") cannot hold
+for every writer — `two_writers_one_slot_full_fails` — and what does hold is: -/
+
+/-- The stream-level guarantee: a writer that returned `Pending` from its last poll has nothing it
+    could do, or a wake-up has been delivered to the stream's waker slot AFTER that writer registered
+    (to its own waker or to one that registered later), or the `wake()` of an acknowledge / close
+    that already wrote is still to come. -/
+theorem no_lost_wakeup_slot_n (sc : Scenario) (ls : List Label) :
+    let s := run sc ls
+    ∀ w ∈ s.writers, w.parked = true →
+      (s.credit = 0 ∧ s.closed = false) ∨ 0 < wakesSinceReg s w ∨ wakePending s = true := by
+  intro s w hw hp
+  have inv : Inv sc s := run_inv sc ls
+  have hv := view_of_mem inv hw
+  have hle := hv.mark_le
+  by_cases hm : w.regMark = s.wakeLog.length
+  · obtain ⟨hd, hc⟩ := hv.parked_ok hp hm
+    by_cases hcr : 0 < s.credit
+    · right; right
+      obtain ⟨a, ha, hpa⟩ := List.countP_pos_iff.mp (hc hcr)
+      simp only [wakePending, List.any_eq_true]
+      refine ⟨a, ha, ?_⟩
+      simp [Lemmas.Waker.pAckerMid] at hpa
+      simp [hpa.2]
+    · by_cases hcl : s.closed = true
+      · right; right
+        have hpos := inv.closed_iff.mp hcl
+        have hmid : 0 < s.actors.countP Lemmas.Waker.pCloserMid := by omega
+        obtain ⟨a, ha, hpa⟩ := List.countP_pos_iff.mp hmid
+        simp only [wakePending, List.any_eq_true]
+        refine ⟨a, ha, ?_⟩
+        simp [Lemmas.Waker.pCloserMid] at hpa
+        simp [hpa.2]
+      · left
+        exact ⟨by omega, by simpa using hcl⟩
+  · right; left
+    simp only [wakesSinceReg]; omega
+
+/-- Who is woken: the cell only ever holds the waker of the LATEST `register` on the stream, so every
+    wake-up goes to the task that registered last; and a waker is woken only after its own poll
+    registered it (no wake-up is attributed to a poll that has not registered, or to a thread that is
+    not a writer of the scenario). -/
+theorem wakeups_go_to_latest_registration_n (sc : Scenario) (ls : List Label) :
+    let s := run sc ls
+    (∀ x, s.registered = some x → s.lastReg = some x) ∧
+    (∀ i k, (i, k) ∈ s.wakeLog → ∃ w, s.writers[i]? = some w ∧ k ≤ w.cur ∧ (k = w.cur → w.curRegistered = true)) := by
+  intro s
+  have inv2 : Inv2 s := run_inv2 sc ls
+  refine ⟨inv2.reg_last, fun i k hk => ?_⟩
+  have hi := inv2.woken_bound i k hk
+  refine ⟨s.writers[i], by simp [hi], ?_, ?_⟩
+  · exact (inv2.wid i _ (by simp [hi])).woken_le k hk
+  · intro e
+    exact (inv2.wid i _ (by simp [hi])).woken_cur (e ▸ hk)
+
+/-- The full per-writer guarantee holds for the writer whose registration is the latest one on the
+    stream (not replaced by a later `register`): if it is parked, it has nothing to do, or ITS waker
+    has been woken, or a `wake()` is still to come.  With one writer thread this is `no_lost_wakeup`. -/
+theorem latest_registration_not_lost_n (sc : Scenario) (ls : List Label) :
+    let s := run sc ls
+    ∀ i w, s.writers[i]? = some w → w.parked = true → replacedW s i w = false →
+      (s.credit = 0 ∧ s.closed = false) ∨ wokenW s i w = true ∨ wakePending s = true := by
+  intro s i w hw hp hr
+  have inv2 : Inv2 s := run_inv2 sc ls
+  have hl : s.lastReg = some (i, w.cur) := by simpa [replacedW] using hr
+  have hid := inv2.wid i w hw
+  rcases hid.last_live (Or.inr (Or.inr hp)) hl with hreg | hwk
+  · have hm := hid.reg_mark hreg
+    have hslot : (s.credit = 0 ∧ s.closed = false) ∨ 0 < wakesSinceReg s w ∨ wakePending s = true :=
+      no_lost_wakeup_slot_n sc ls w (List.mem_of_getElem? hw) hp
+    rcases hslot with h | h | h
+    · exact Or.inl h
+    · simp only [wakesSinceReg] at h; omega
+    · exact Or.inr (Or.inr h)
+  · right; left
+    simpa [wokenW] using hwk
+
+/-- Every parked writer: it has nothing to do; or its own waker was woken; or its registration was
+    REPLACED by a later `register` of another task and a wake-up has been delivered to the slot since
+    (to that later registration, see `wakeups_go_to_latest_registration_n`); or a `wake()` is still to
+    come.  The third case is the price of one slot: this writer itself may sleep on. -/
+theorem no_lost_wakeup_n (sc : Scenario) (ls : List Label) :
+    let s := run sc ls
+    ∀ i w, s.writers[i]? = some w → w.parked = true →
+      (s.credit = 0 ∧ s.closed = false) ∨ wokenW s i w = true ∨
+        (replacedW s i w = true ∧ 0 < wakesSinceReg s w) ∨ wakePending s = true := by
+  intro s i w hw hp
+  by_cases hr : replacedW s i w = true
+  · rcases no_lost_wakeup_slot_n sc ls w (List.mem_of_getElem? hw) hp with h | h | h
+    · exact Or.inl h
+    · exact Or.inr (Or.inr (Or.inl ⟨hr, h⟩))
+    · exact Or.inr (Or.inr (Or.inr h))
+  · rcases latest_registration_not_lost_n sc ls i w hw hp (by simpa using hr) with h | h | h
+    · exact Or.inl h
+    · exact Or.inr (Or.inl h)
+    · exact Or.inr (Or.inr (Or.inr h))
+
+/-- At quiescence (every actor thread has finished): a sleeping writer that could proceed or should
+    fail has been woken after it registered, or its registration was replaced and the wake-up went to
+    the slot after that. -/
+theorem no_lost_wakeup_quiescent_n (sc : Scenario) (ls : List Label) :
+    let s := run sc ls
+    allActorsDone s = true →
+    ∀ i w, s.writers[i]? = some w → w.parked = true → (0 < s.credit ∨ s.closed = true) →
+      wokenW s i w = true ∨ (replacedW s i w = true ∧ 0 < wakesSinceReg s w) := by
+  intro s hdone i w hw hp hcond
+  have hn : (s.credit = 0 ∧ s.closed = false) ∨ wokenW s i w = true ∨
+      (replacedW s i w = true ∧ 0 < wakesSinceReg s w) ∨ wakePending s = true :=
+    no_lost_wakeup_n sc ls i w hw hp
+  rcases hn with h | h | h | h
+  · rcases hcond with c | c
+    · omega
+    · rw [h.2] at c; exact absurd c (by decide)
+  · exact Or.inl h
+  · exact Or.inr h
+  · exfalso
+    simp only [wakePending, List.any_eq_true] at h
+    obtain ⟨a, ha, hwk⟩ := h
+    simp only [allActorsDone, List.all_eq_true] at hdone
+    have := hdone a ha
+    cases hpc : a.pc <;> simp_all
+
+/-- … and the task that took the slot is served: at quiescence, if credit is available or the stream
+    is closed, the writer `j` of the latest registration `(j, k)` has been woken through that very
+    waker, or it is not asleep (its last poll returned `Ready`: it saw the condition). -/
+theorem replacing_registration_served_n (sc : Scenario) (ls : List Label) :
+    let s := run sc ls
+    allActorsDone s = true → (0 < s.credit ∨ s.closed = true) →
+    ∀ j k, s.lastReg = some (j, k) →
+      ∃ v, s.writers[j]? = some v ∧ ((j, k) ∈ s.wakeLog ∨ v.parked = false) := by
+  intro s hdone hcond j k hl
+  have inv : Inv sc s := run_inv sc ls
+  have inv2 : Inv2 s := run_inv2 sc ls
+  have hj := inv2.last_bound j k hl
+  have hv : s.writers[j]? = some s.writers[j] := by simp [hj]
+  refine ⟨s.writers[j], hv, ?_⟩
+  generalize s.writers[j] = v at hv
+  by_cases hp : v.parked = true
+  · left
+    have hid := inv2.wid j v hv
+    have hreg := (inv.winv j v hv).post_reg (Or.inr (Or.inr hp))
+    have hk : k = v.cur := (hid.last_cur k hl).mpr hreg
+    subst hk
+    have hr : replacedW s j v = false := by simp [replacedW, hl]
+    have hq : wokenW s j v = true ∨ (replacedW s j v = true ∧ 0 < wakesSinceReg s v) :=
+      no_lost_wakeup_quiescent_n sc ls hdone j v hv hp hcond
+    rcases hq with h | h
+    · simpa [wokenW] using h
+    · have := h.1; rw [hr] at this; exact absurd this (by decide)
+  · right; simpa using hp
+
+/-! #### The negative witness: the per-writer guarantee is FALSE with one slot
+
+No credit, two writer threads with one poll each, one `acknowledge(1)`.  Writer 0 polls: loads, finds
+no credit, registers, re-checks, returns `Pending`.  Writer 1 does the same: its `register` REPLACES
+writer 0's waker.  The acknowledger adds one unit and calls `wake()`: writer 1 is woken.  Everybody has
+finished; one unit of credit is available; writer 0 sleeps and its waker was never woken.  (Writer 1's
+task will be polled again and can use the unit; a unit it does not need stays unused until the next
+acknowledgement although writer 0 waits for it.)  loom reaches the same outcome on the real code:
+`res=P,P;credit=1;wakes=0,1;after=1,1;closed=0;frames=0` of scenario `c0-w2-a1`. -/
+
+def oneSlotScenario : Scenario := ⟨0, [1, 1], [.ack 1]⟩
+def oneSlotSchedule : List Label :=
+  [.writer 0, .writer 0, .writer 0, .writer 0, .writer 0,
+   .writer 1, .writer 1, .writer 1, .writer 1, .writer 1, .actor 0, .actor 0]
+
+theorem two_writers_one_slot_witness :
+    let s := run oneSlotScenario oneSlotSchedule
+    allActorsDone s = true ∧ allWritersFinished s = true ∧ s.credit = 1 ∧
+      s.writers.map (·.parked) = [true, true] ∧
+      (s.writers[0]?.map fun w => (wokenW s 0 w, replacedW s 0 w, wakesSinceReg s w)) = some (false, true, 1) ∧
+      (s.writers[1]?.map fun w => (wokenW s 1 w, replacedW s 1 w)) = some (true, false) := by
+  decide
+
+/-- The statement of `no_lost_wakeup_quiescent` for EVERY writer of a stream ("a parked writer has
+    nothing to do or its own waker was woken") does not hold when two tasks wait on one stream. -/
+theorem two_writers_one_slot_full_fails :
+    ¬ (∀ (sc : Scenario) (ls : List Label),
+        let s := run sc ls
+        allActorsDone s = true →
+        ∀ i w, s.writers[i]? = some w → w.parked = true →
+          (s.credit = 0 ∧ s.closed = false) ∨ wokenW s i w = true) := by
+  intro h
+  have hw := h oneSlotScenario oneSlotSchedule (by decide) 0
+  cases e : (run oneSlotScenario oneSlotSchedule).writers[0]? with
+  | none => exact absurd e (by decide)
+  | some w =>
+    have h1 : w.parked = true ∧ wokenW (run oneSlotScenario oneSlotSchedule) 0 w = false := by
+      have : ((run oneSlotScenario oneSlotSchedule).writers[0]?.map fun w =>
+          (w.parked, wokenW (run oneSlotScenario oneSlotSchedule) 0 w)) = some (true, false) := by decide
+      rw [e] at this
+      simpa using this
+    rcases hw w e h1.1 with h2 | h2
+    · exact absurd h2.1 (by decide)
+    · rw [h1.2] at h2; exact absurd h2 (by decide)
+
+/-! #### Non-vacuity of the `_n` theorems -/
+
+/-- two writers that both loaded the last unit: one `compare_exchange` succeeds, the other fails,
+    re-loads 0, registers, re-checks and parks — ONE frame, credit 0 -/
+example :
+    let s := run ⟨1, [1, 1], []⟩ [.writer 0, .writer 1, .writer 0, .writer 1]
+    s.credit = 1 ∧ s.writers.map (·.pc) = [.cas 1, .cas 1] ∧ inFlight s = 0 ∧ grantsToCome s = 0 := by
+  decide
+
+example :
+    let s := run ⟨1, [1, 1], []⟩ ([.writer 0, .writer 1, .writer 0, .writer 1] ++
+      [.writer 1, .writer 0, .writer 0, .writer 0, .writer 0, .writer 0, .writer 1])
+    allWritersFinished s = true ∧ s.writers.map (·.results) = [[.pending], [.some]] ∧ s.credit = 0 ∧
+      totalSent s = 1 ∧ totalTakes s = 1 := by
+  decide
+
+/-- conservation with a grant racing two takes: 1 + 2 granted, two frames, one unit left -/
+example :
+    let s := run ⟨1, [1, 1], [.ack 2]⟩ [.writer 0, .writer 0, .actor 0, .writer 1, .writer 1, .writer 0,
+      .writer 0, .writer 0, .writer 0, .writer 1, .writer 1, .writer 1, .writer 1, .actor 0]
+    allWritersFinished s = true ∧ s.writers.map (·.results) = [[.some], [.some]] ∧ s.credit = 1 ∧
+      s.grants = 2 ∧ totalSent s = 2 ∧ s.writers.map (·.takes) = [[3], [2]] := by
+  decide
+
+/-- a parked writer whose own waker was woken (it is the latest registration) -/
+example :
+    let s := run ⟨0, [1, 1], [.ack 1]⟩ [.writer 1, .writer 1, .writer 1, .writer 1, .writer 1, .actor 0, .actor 0]
+    (s.writers[1]?.map fun w => (w.parked, replacedW s 1 w, wokenW s 1 w)) = some (true, false, true) ∧
+      s.credit = 1 := by
+  decide
+
+/-- closed: a poll of writer 1 that starts after the `swap` fails; writer 0, parked before, is woken -/
+example :
+    let s := run ⟨0, [1, 1], [.close]⟩ [.writer 0, .writer 0, .writer 0, .writer 0, .writer 0, .actor 0,
+      .writer 1, .actor 0]
+    s.writers.map (·.log) = [[(false, .pending)], [(true, .none)]] ∧ s.closed = true ∧
+      s.wakeLog = [(0, 0)] := by
+  decide
+
+/-- the latest registration belongs to a writer that is not asleep (it saw the credit in its re-check),
+    while the replaced writer sleeps with one unit left: `replacing_registration_served_n`, second case -/
+example :
+    let s := run ⟨0, [1, 1], [.ack 2]⟩ [.writer 0, .writer 0, .writer 0, .writer 0, .writer 0,
+      .writer 1, .writer 1, .writer 1, .actor 0, .writer 1, .writer 1, .writer 1, .writer 1, .actor 0]
+    allActorsDone s = true ∧ allWritersFinished s = true ∧ s.credit = 1 ∧ s.lastReg = some (1, 0) ∧
+      s.writers.map (·.results) = [[.pending], [.some]] ∧ s.wakeLog = [(1, 0)] := by
+  decide
 
 end Penguin.C12
